@@ -26,6 +26,7 @@ class Fn:
         self.trait_impl = None     # trait name when this is a method of `impl Trait for X`
         self.external = False
         self.delegated = False
+        self.has_body = True
 
     def __repr__(self):
         return 'Fn(%s %s %d-%d)' % (self.mode, self.id, self.lo, self.hi)
@@ -66,6 +67,7 @@ def fn_table(text):
                 f.id = '::'.join([x for x in ['::'.join(modpath), implkey, it.name] if x])
                 f.lo, f.hi = line_of(it.start), line_of(it.end - 1)
                 f.body_lo = line_of(it.body_lo) if it.body_lo >= 0 else f.hi
+                f.has_body = it.body_lo >= 0
                 hdr = m[it.attr_end:it.hdr_end]
                 pre = hdr[:hdr.index('fn')]
                 f.mode = 'proof' if re.search(r'\b(proof|axiom)\b', pre) else ('spec' if re.search(r'\bspec\b', pre) else 'exec')
@@ -184,7 +186,7 @@ def classify(res, text, fns, ins_lines=()):
         cand = None
         for s in allsp:
             for f in fns:
-                if f.lo <= s['line_start'] <= f.hi and f.hi > f.body_lo >= f.lo and f.mode in ('exec', 'proof'):
+                if f.lo <= s['line_start'] <= f.hi and f.has_body and f.mode in ('exec', 'proof'):
                     if f.trait_impl and f.trait_impl.startswith('decl:'):
                         continue
                     if cand is None or (f.hi - f.lo) < (cand.hi - cand.lo):
@@ -231,7 +233,7 @@ def inventory(text, fns):
             continue
         if f.trait_impl and f.trait_impl.startswith('decl:'):
             continue
-        if f.hi <= f.body_lo and f.body_lo == f.hi and not lines[f.hi - 1].rstrip().endswith('}'):
+        if not f.has_body:
             continue
         ob = {}
 
